@@ -20,7 +20,7 @@ RULE = ("reply objects = envelope(1.0/2.0, with/without id) x error value x resu
         "enumerated over a directed table (every integer code around both range bounds, float/"
         "string/null/bool codes, with/without message/trace/data, single-entry objects, strings, "
         "numbers, booleans, arrays) plus seeded random replies; each driven through "
-        "check_for_errors, ServerProxy over a canned loopback transport, MultiCall index and "
+        "check_for_errors, ServerProxy calls and _notify calls over a canned loopback transport, MultiCall index and "
         "iteration at every batch position. distinct = distinct (site, reply) pairs; "
         "non-trivial = the reply carries a non-empty error or a result member (judged by the oracle).")
 ASSUMPTIONS = [
@@ -149,6 +149,10 @@ class Driver(object):
                 self.transport.reply_text = json.dumps(reply)
                 proxy = self.proxy if "jsonrpc" in reply else self.proxy1
                 return ("return", proxy.some_method(1, 2))
+            if site == "proxy-notify":
+                self.transport.reply_text = json.dumps(reply)
+                proxy = self.proxy if "jsonrpc" in reply else self.proxy1
+                return ("return", proxy._notify.some_method(1, 2))
             if site == "multicall-index":
                 results = self._multicall(batch)
                 return ("return", results[pos])
@@ -188,6 +192,10 @@ def judge(ctx, drv, site, reply, obs):
     ctx.count("observed:%s" % site)
     if exp[0] == "unjudged":
         ctx.count("unjudged:" + exp[1])
+        return
+    if site == "proxy-notify" and exp[0] == "return":
+        # a notification call returns None whatever the reply carries (C04); only error replies are judged here
+        ctx.count("unjudged:notify-result-reply")
         return
     jr = drv.jr
     case = {"site": site, "reply": reply}
@@ -301,7 +309,7 @@ def run(ctx):
                     # quick tier: a third of the (large) code table per seed-shifted slice
                     if (idx + ctx.seed) % 3:
                         continue
-                for site in sites[:2]:
+                for site in sites[:2] + ("proxy-notify",):
                     run_case(ctx, drv, site, reply)
                 ctx.sample({"site": "proxy", "reply": reply, "expected": list(map(str, expected(reply)))})
     ctx.exhaustive["directed error table x envelopes (thorough tier only)"] = not ctx.quick
@@ -318,7 +326,7 @@ def run(ctx):
     nr = ctx.pick(2500, 60000)
     for _ in range(nr):
         reply = rand_reply(rng)
-        for site in sites[:2]:
+        for site in sites[:2] + ("proxy-notify",):
             run_case(ctx, drv, site, reply)
 
 
@@ -326,7 +334,7 @@ def finalize(m, tier):
     c = m["counters"]
     out = []
     for k in ("judged:error-reply", "judged:result-reply", "observed:proxy",
-              "observed:multicall-index", "observed:multicall-iter", "observed:check_for_errors"):
+              "observed:multicall-index", "observed:multicall-iter", "observed:check_for_errors", "observed:proxy-notify"):
         if c.get(k, 0) < 100:
             out.append("monitor counter %s too low (%d)" % (k, c.get(k, 0)))
     return out
